@@ -104,15 +104,18 @@ def detect(sid, props, tier):
     try:
         for p in props:
             t0 = time.time()
+            ev = os.path.join(VERIF, "evidence", f"{p}.json")
+            saved = open(ev).read() if os.path.exists(ev) else None      # evidence/ must describe runs on the unchanged tree
             r = subprocess.run(["./check", p, "--tier", tier], cwd=VERIF, capture_output=True, text=True)
             viol = [l for l in r.stdout.split("\n") if l.startswith("VIOLATION")]
             results[p] = {"exit": r.returncode, "violation_lines": len(viol), "tier": tier, "wall_s": round(time.time() - t0, 1)}
             if r.returncode == 2:
                 results[p]["stderr"] = r.stderr[-500:]
-            ev = os.path.join(VERIF, "evidence", f"{p}.json")
             if os.path.exists(ev):
                 cov = json.load(open(ev))["coverage"]
                 results[p]["violation_classes"] = {k: v["count"] for k, v in cov.get("violation_classes", {}).items()}
+            if saved is not None:
+                open(ev, "w").write(saved)
     finally:
         subprocess.run(["git", "-C", "/repo", "checkout", "--", "."])
     mp = os.path.join(d, "meta.json")
